@@ -62,7 +62,12 @@ func (a *ArgMax) Init(n *onnx.NodeProto) error {
 
 // Apply applies the argmax operator.
 func (a *ArgMax) Apply(inputs []tensor.Tensor) ([]tensor.Tensor, error) {
-	axis := ops.ConvertNegativeAxis(a.axis, len(inputs[0].Shape()))
+	rank := len(inputs[0].Shape())
+	if a.axis < -rank || a.axis >= rank {
+		return nil, ops.ErrAxisOutOfRange(-rank, rank, a.axis)
+	}
+
+	axis := ops.ConvertNegativeAxis(a.axis, rank)
 
 	reduced, err := tensor.Argmax(inputs[0], axis)
 	if err != nil {
@@ -83,6 +88,11 @@ func (a *ArgMax) Apply(inputs []tensor.Tensor) ([]tensor.Tensor, error) {
 
 	// The tensor.Argmax function returns data of type int, but according to
 	// the ONNX standard this operator should return int64.
+	// Reducing a vector without keeping the dimension gives a scalar.
+	if index, ok := reduced.Data().(int); ok {
+		return []tensor.Tensor{tensor.New(tensor.FromScalar(int64(index)))}, nil
+	}
+
 	backing, ok := reduced.Data().([]int)
 	if !ok {
 		return nil, ops.ErrTypeAssert("int", reduced.Dtype())
